@@ -169,7 +169,7 @@ theorem xwait_step {a0 : App} {unpl : Bool} {after : List Nat} {c c' : Cell} {la
       simp only [PlaceOk] at hok; exact absurd (e.symm.trans hok.1) hx
     | dropDangling _ _ _ => simp only [PlaceOk] at hok
     | forgetIdentity _ _ _ _ _ => simp only [PlaceOk] at hok
-    | tree _ => simp [Lab.target] at ht
+    | tree _ _ => simp [Lab.target] at ht
     | clearEv => simp [Lab.target] at ht
   · have := lprim_untargeted_eq hp ht (placeOk_not_clear hok)
     exact ⟨a, by rw [this]; exact ha, hnr, hid, hsv⟩
